@@ -64,7 +64,8 @@ class C17(Machine):
                    "model_I_swap_found", "cross_links_rewired",
                    "cross_links_set", "unsorted_group", "singleton_group",
                    "custom_distance_matrix", "generator_exact_count",
-                   "long_lived_object_reused")
+                   "long_lived_object_reused",
+                   "embedded_graph_carries_node_attributes")
     real_vs_stub = {"real": ["Network generators (ErdosRenyi, BarabasiAlbert, "
                              "BarabasiAlbert_igraph, Configuration, "
                              "WattsStrogatz, Model wrappers), "
@@ -164,7 +165,10 @@ class C17(Machine):
         return {"property": self.pid, "seed": seed, "run": idx,
                 "config": {"lru": lru, "n": n,
                            "personality": a.choice(PERSONALITIES),
-                           "grid_s": a.randrange(10 ** 9)},
+                           "grid_s": a.randrange(10 ** 9),
+                           # the long-lived object carries node attributes
+                           # on its embedded graph (as after a save())
+                           "decorated": a.random() < 0.4},
                 "start": start, "ops": ops}
 
     # ------------------------------------------------------------ execution
@@ -187,6 +191,7 @@ class C17(Machine):
         ggrid = _geo_grid({"n": n, "s": cfg["grid_s"]})
         sig = [cfg["personality"]]
         self._live = None
+        self._decorated = bool(cfg.get("decorated"))
         with RNG.installed(sr):
             for step, op in enumerate(run["ops"]):
                 R.steps += 1
@@ -455,6 +460,10 @@ class C17(Machine):
             return live
         self._live = SpatialNetwork(grid=grid, adjacency=A.copy(),
                                     silence_level=3)
+        if self._decorated:
+            self._R.probe("embedded_graph_carries_node_attributes")
+            self._live.set_node_attribute(
+                "station", np.arange(A.shape[0], dtype=float))
         return self._live
 
     def _consistent(self, net, M, step):
